@@ -17,7 +17,7 @@ import re
 import sys
 
 ROOT = os.path.dirname(os.path.dirname(os.path.abspath(__file__)))
-REPO = os.environ.get("KIRA_REPO", "/repo")
+REPO = os.environ.get("KV_REPO") or os.environ.get("KIRA_REPO", "/repo")
 KIRA = os.path.join(REPO, "crates", "kira", "src")
 OUT = os.path.join(ROOT, "lean", "KiraModel", "Gen.lean")
 
